@@ -80,7 +80,7 @@ fn chunker_run_inner(stream: &[u8], block: usize, sched: &Sched, arena_state: Ar
     let cap = 4 * stream.len() + 16;
     loop {
         if chunks > cap {
-            return Err("pump does not reach Eof".into());
+            return Err("[content] pump does not reach Eof".into());
         }
         let chunk = chunker.pump(iov.arena(), &mut reader, block).map_err(|e| format!("pump failed: {}", e))?;
         chunks += 1;
@@ -89,27 +89,27 @@ fn chunker_run_inner(stream: &[u8], block: usize, sched: &Sched, arena_state: Ar
             Chunk::Sentinel(end) => {
                 rebuilt.extend_from_slice(&refcodec::STUFF);
                 if end != rebuilt.len() as u64 {
-                    return Err(format!("Sentinel reports end offset {} but the chunks so far cover {} bytes", end, rebuilt.len()));
+                    return Err(format!("[content] Sentinel reports end offset {} but the chunks so far cover {} bytes", end, rebuilt.len()));
                 }
                 prev_data_last = None;
             }
             Chunk::Data((end, slice)) => {
                 let bytes = slice.slice();
                 if bytes.is_empty() {
-                    return Err("empty Data chunk".into());
+                    return Err("[content] empty Data chunk".into());
                 }
                 if !owning_iovec::verif::is_live(bytes.as_ptr() as usize, bytes.len()) {
-                    return Err("Data chunk points outside every live arena chunk".into());
+                    return Err("[live] Data chunk points outside every live arena chunk".into());
                 }
                 if refcodec::contains_stuff(bytes) {
-                    return Err(format!("Data chunk [{}] contains FE FD", hex(bytes)));
+                    return Err(format!("[content] Data chunk [{}] contains FE FD", hex(bytes)));
                 }
                 if prev_data_last == Some(0xFE) && bytes[0] == 0xFD {
-                    return Err(format!("FE FD straddles two consecutive Data chunks (second one ends at {})", end));
+                    return Err(format!("[content] FE FD straddles two consecutive Data chunks (second one ends at {})", end));
                 }
                 rebuilt.extend_from_slice(bytes);
                 if end != rebuilt.len() as u64 {
-                    return Err(format!("Data chunk reports end offset {} but the chunks so far cover {} bytes", end, rebuilt.len()));
+                    return Err(format!("[content] Data chunk reports end offset {} but the chunks so far cover {} bytes", end, rebuilt.len()));
                 }
                 prev_data_last = bytes.last().copied();
                 let copy = bytes.to_vec();
@@ -117,17 +117,17 @@ fn chunker_run_inner(stream: &[u8], block: usize, sched: &Sched, arena_state: Ar
             }
         }
         if rebuilt.len() > stream.len() || stream[..rebuilt.len()] != rebuilt[..] {
-            return Err(format!("chunks so far [{}] are not a prefix of the stream", hex(&rebuilt)));
+            return Err(format!("[content] chunks so far [{}] are not a prefix of the stream", hex(&rebuilt)));
         }
     }
     if rebuilt != stream {
-        return Err(format!("Eof after {} of {} bytes", rebuilt.len(), stream.len()));
+        return Err(format!("[content] Eof after {} of {} bytes", rebuilt.len(), stream.len()));
     }
     // Eof is sticky
     for _ in 0..3 {
         match chunker.pump(iov.arena(), &mut reader, block).map_err(|e| format!("pump failed: {}", e))? {
             Chunk::Eof => {}
-            _ => return Err("pump returned a chunk after Eof".into()),
+            _ => return Err("[content] pump returned a chunk after Eof".into()),
         }
     }
     // every Data slice handed out is still alive and intact, even after the arena lets go
@@ -135,10 +135,10 @@ fn chunker_run_inner(stream: &[u8], block: usize, sched: &Sched, arena_state: Ar
     for (i, (slice, copy)) in held.iter().enumerate() {
         let b = slice.slice();
         if !owning_iovec::verif::is_live(b.as_ptr() as usize, b.len()) {
-            return Err(format!("Data chunk #{} died while still held", i));
+            return Err(format!("[live] Data chunk #{} died while still held", i));
         }
         if b != copy.as_slice() {
-            return Err(format!("Data chunk #{} changed while held", i));
+            return Err(format!("[content] Data chunk #{} changed while held", i));
         }
     }
     drop(held);
@@ -146,7 +146,7 @@ fn chunker_run_inner(stream: &[u8], block: usize, sched: &Sched, arena_state: Ar
     drop(iov);
     let live1 = live();
     if live1 != live0 {
-        return Err(format!("arena leak: live (chunks, bytes) {:?} -> {:?}", live0, live1));
+        return Err(format!("[leak] arena leak: live (chunks, bytes) {:?} -> {:?}", live0, live1));
     }
     Ok(chunks)
 }
@@ -275,7 +275,7 @@ fn reader_run_inner(stream: &[u8], block: Option<usize>, sched: &Sched, judge: J
             // C05 inside the judge: whatever the reader shows the judge must be alive
             for (i, s) in iovec.stable_prefix().iter().enumerate() {
                 if !owning_iovec::verif::is_live(s.as_ptr() as usize, s.len()) {
-                    judge_violation.borrow_mut().get_or_insert(format!("the judge was shown slice #{} ({} bytes) outside every live arena chunk (range {:?})", i, s.len(), range));
+                    judge_violation.borrow_mut().get_or_insert(format!("[live] the judge was shown slice #{} ({} bytes) outside every live arena chunk (range {:?})", i, s.len(), range));
                 }
             }
             if iovec.has_pending_backrefs() {
@@ -300,7 +300,7 @@ fn reader_run_inner(stream: &[u8], block: Option<usize>, sched: &Sched, judge: J
     let cap = stream.len() + 8;
     loop {
         if got.len() > cap {
-            return Err("more records than bytes".into());
+            return Err("[content] more records than bytes".into());
         }
         let r = sr.next_record_bytes(&mut reader, make_judge(), block).map_err(|e| format!("next_record_bytes failed: {}", e))?;
         match r {
@@ -308,10 +308,10 @@ fn reader_run_inner(stream: &[u8], block: Option<usize>, sched: &Sched, judge: J
             Some((iov, range)) => {
                 for (i, s) in iov.stable_prefix().iter().enumerate() {
                     if s.is_empty() {
-                        return Err(format!("record slice #{} is empty", i));
+                        return Err(format!("[content] record slice #{} is empty", i));
                     }
                     if !owning_iovec::verif::is_live(s.as_ptr() as usize, s.len()) {
-                        return Err(format!("record slice #{} ({} bytes) points outside every live arena chunk", i, s.len()));
+                        return Err(format!("[live] record slice #{} ({} bytes) points outside every live arena chunk", i, s.len()));
                     }
                 }
                 let bytes = iov.flatten().map_err(|_| "record iovec has a pending placeholder".to_string())?;
@@ -327,26 +327,26 @@ fn reader_run_inner(stream: &[u8], block: Option<usize>, sched: &Sched, judge: J
     }
     if got != want {
         let show = |v: &Vec<(Vec<u8>, std::ops::Range<u64>)>| v.iter().map(|(b, r)| format!("[{}]@{}..{}", hex(b), r.start, r.end)).collect::<Vec<_>>().join(" ");
-        return Err(format!("records returned: {} ; expected: {}", if got.is_empty() { "none".to_string() } else { show(&got) }, if want.is_empty() { "none".to_string() } else { show(&want) }));
+        return Err(format!("[content] records returned: {} ; expected: {}", if got.is_empty() { "none".to_string() } else { show(&got) }, if want.is_empty() { "none".to_string() } else { show(&want) }));
     }
     for _ in 0..3 {
         if sr.next_record_bytes(&mut reader, make_judge(), block).map_err(|e| format!("next_record_bytes failed: {}", e))?.is_some() {
-            return Err("a record was returned after end of stream".into());
+            return Err("[content] a record was returned after end of stream".into());
         }
     }
     if let Judge::Std(_, None) | Judge::SkipFirst | Judge::SkipBelow(_) = judge {
         if reader.delivered() != stream.len() {
-            return Err(format!("end of stream reported after reading {} of {} bytes", reader.delivered(), stream.len()));
+            return Err(format!("[content] end of stream reported after reading {} of {} bytes", reader.delivered(), stream.len()));
         }
         let want_last = last_sentinel_start(stream);
         if sr.last_sentinel_offset() != want_last {
-            return Err(format!("last_sentinel_offset() = {} expected {}", sr.last_sentinel_offset(), want_last));
+            return Err(format!("[content] last_sentinel_offset() = {} expected {}", sr.last_sentinel_offset(), want_last));
         }
     }
     drop(sr);
     let live1 = live();
     if live1 != live0 {
-        return Err(format!("arena leak: live (chunks, bytes) {:?} -> {:?}", live0, live1));
+        return Err(format!("[leak] arena leak: live (chunks, bytes) {:?} -> {:?}", live0, live1));
     }
     Ok(got.len())
 }
